@@ -562,6 +562,9 @@ class EvalFunc:
                     )
                     async_set_service_schema(Function.hass, domain, name, service_desc)
                     self.trigger_service.add(srv_name)
+                    # known to the context from the first registration on: if a later decorator fails, unloading
+                    # the context still releases the services registered so far
+                    trig_ctx.trigger_register(self)
                 continue
 
             if dec_name == "webhook_trigger" and "methods" in dec_kwargs:
